@@ -150,6 +150,9 @@ func runC05(c *Ctx) {
 		c.Check(nAlias >= 1, "R-ALIAS", "x509.CreateRevocationList", "entry extension stores enumerated", "-", fmt.Sprint(nAlias))
 	}
 
+	// ---------------- R-FRESH over all three creators (generalises the R-ALIAS instance above)
+	c.FreshObligations(fileScope(w, []string{pkg + ".CreateCertificateRequest", pkg + ".CreateRevocationList", "(*" + pkg + ".Certificate).CreateCRL"}, "x509/x509.go"), "CSR/CRL creation")
+
 	// ---------------- CSR SAN guard
 	if fn := w.Fn(pkg + ".CreateCertificateRequest"); fn != nil {
 		calls := callsIn(fn, pkg+".marshalSANs")
